@@ -34,6 +34,7 @@ pub mod c03;
 pub mod c05;
 pub mod c06;
 pub mod c07;
+pub mod c12;
 pub mod c15;
 pub mod c17;
 pub mod c19;
@@ -46,6 +47,7 @@ pub fn get(id: &str) -> Option<PropDef> {
         "C05" => Some(c05::def()),
         "C06" => Some(c06::def()),
         "C07" => Some(c07::def()),
+        "C12" => Some(c12::def()),
         "C15" => Some(c15::def()),
         "C17" => Some(c17::def()),
         "C19" => Some(c19::def()),
